@@ -19,3 +19,13 @@ def check(rep, tier, replay=None):
         "A bound >= 100x the tolerance (relative to the largest output entry; within 1e-5 (double) / 1e-2 (float) of pi the looser near-pi tolerance of the log round trip) "
         "is a violation naming the angle and entry; a smaller excess is a note.  It decides the conditioning of the compiled formulas, not measured error.")
     roundir.run(rep, tier, "C02", ["exp", "logexp"], 1e-9, 1e-3, near_pi={"logexp": (1e-5, 1e-7, 1e-2, 1e-2)})
+    rep.explanations.append(
+        "Rules TT (props/roundir.py: run_tails): the Taylor-tail helpers of detail/trig.hpp as their own witnesses -- on the path taken for arguments beyond every comparison constant the value "
+        "goes through a libm sine / cosine (a polynomial cannot serve every rotation norm), the rounding bound relative to the value stays below 100 x 1e-9, and the value is continuous where the "
+        "branches meet.")
+    roundir.run_tails(rep, "TT")
+    rep.explanations.append(
+        "Rule RND.E (props/roundir.py: run_special_logs): log(g) and exp(log(g)) in the (value, rounding bound) domain at the exactly representable elements where log is singular or changes "
+        "branch -- identity, half turns about the axes and about a general axis, quarter turns, a generic rational rotation, with non-zero translation parts: finite results (a division by "
+        "exactly zero is reported), rotation norm of log(g) at most pi, exp(log(g)) = g up to the sign of the quaternion.  These are the finitely many points the series domain of rule T cannot reach.")
+    roundir.run_special_logs(rep, "RND.E")
